@@ -165,7 +165,16 @@ pub fn check_note(l0: &Lib, ext: &str, key: &str) -> Option<String> {
                     let after = c10::payloads(l1.get(key).map(|s| s.as_str()).unwrap_or(""), &dir);
                     if sorted(after.clone()) != sorted(before.clone()) {
                         let has_rule_or_table = |t: &str| t.contains("----") || t.starts_with('|') || t.contains("\n|") || t.contains("> |") || t.contains("  |");
-                        if D10_OPEN.load(Ordering::Relaxed) && (has_rule_or_table(target_text) || has_rule_or_table(&text0)) {
+                        // finding D10 also glues two quotes that follow each other inside a tight list item: "Inline quote" on a
+                        // reference whose neighbour block is a quote produces exactly that
+                        let neighbour_is_quote = {
+                            let lines: Vec<&str> = text0.lines().collect();
+                            let l = line as usize;
+                            let next = lines.iter().skip(l + 1).find(|x| !x.trim().is_empty());
+                            let prev = lines.iter().take(l).rev().find(|x| !x.trim().is_empty());
+                            kind == INLINE_QUOTE && lines.get(l).map(|x| x.starts_with(' ')).unwrap_or(false) && (next.map(|x| x.trim_start().starts_with('>')).unwrap_or(false) || prev.map(|x| x.trim_start().starts_with('>')).unwrap_or(false))
+                        };
+                        if D10_OPEN.load(Ordering::Relaxed) && (has_rule_or_table(target_text) || has_rule_or_table(&text0) || neighbour_is_quote) {
                             continue;
                         }
                         return Some(format!("{} at line {} (target {:?}): content not conserved: {}", kind, line, target, multiset_diff(&before, &after)));
